@@ -18,7 +18,10 @@ void   vf_event(const char *sink, long a, long b);        /* integer-valued trac
 void   vf_event_d(const char *sink, double a);            /* double-valued trace event */
 void   vf_event_s(const char *sink, const char *s);       /* string-valued trace event */
 void  *vf_raw(size_t n);                                  /* zero-filled raw storage */
-void   vf_fail(const char *why);                          /* harness-internal error (never a violation) */
+void   vf_fail(const char *why);
+/* virtual file system + stream inspection for API-layer harnesses */
+void   vf_file(const char *name, const char *content);      /* make `name` openable with this content */
+long   vf_stream_content(void *istream, char *buf, long cap); /* copy the unread content of an input stream */                          /* harness-internal error (never a violation) */
 #ifdef __cplusplus
 }
 #endif
